@@ -23,12 +23,13 @@ class FileArg:
     def __init__(self, slot, data):
         self.slot, self.data = slot, data
 
-    def get(self):
+    def get(self, left_at=0):
         fh = _FILES.setdefault(self.slot, io.BytesIO())
         fh.seek(0)
         fh.truncate()
         fh.write(self.data)
-        fh.seek(0)
+        # (every registered function takes its start from an explicit or default start_offset of 0, not from where the caller left the file)
+        fh.seek(min(left_at, len(self.data)))
         return fh
 
 
@@ -91,9 +92,9 @@ def scramble(x, depth=0):
                 scramble(v, depth + 1)
 
 
-def _call(fn, args, kwargs):
-    args = [a.get() if isinstance(a, FileArg) else a for a in args]
-    kwargs = {k: (v.get() if isinstance(v, FileArg) else v) for k, v in kwargs.items()}
+def _call(fn, args, kwargs, left_at=0):
+    args = [a.get(left_at) if isinstance(a, FileArg) else a for a in args]
+    kwargs = {k: (v.get(left_at) if isinstance(v, FileArg) else v) for k, v in kwargs.items()}
     try:
         r = fn(*args, **kwargs)
         if hasattr(r, "__next__"):
@@ -110,13 +111,14 @@ def _history(job):
     name, hist = job
     ent = _G["entries"][name]
     held, out = None, []
-    for step in hist:
+    for i, step in enumerate(hist):
         if step == "edit":
             scramble(held)
             continue
         a, b = step
         args, kwargs = ent["grid"](a, b)
-        held, n = _call(ent["fn"], args, kwargs)
+        # inside a history the caller has left a file object it passes somewhere else than at its start (a pristine answer is taken from position 0)
+        held, n = _call(ent["fn"], args, kwargs, left_at=[0, 1, 777, 10**6][(i + len(hist)) % 4] if len(hist) > 1 else 0)
         out.append(n)
     return out
 
